@@ -115,6 +115,10 @@ def cases(tier, seed):
     for c in out[2 :: (5 if q else 3)]:
         if "computed" not in c and 2 in c["placement"]:
             extra.append(dict(c, multi=len(c["placement"]) - 1 - c["placement"][::-1].index(2)))
+    # ... or in two sections given by the same keyword arguments (two halves of 2 cells each where "count 2" stood)
+    for c in out[3 :: (5 if q else 3)]:
+        if 1 in c["placement"]:
+            extra.append(dict(c, multi_eq=c["placement"].index(1)))
     # resize variant: one direction chopped "count 3" asks for a cell size that gives 3 cells instead; after a successful
     # write the assembled mesh is stretched x2 along that direction and written again (the size now gives 6 cells)
     for c in out[1 :: (5 if q else 3)]:
@@ -126,7 +130,7 @@ def cases(tier, seed):
 
 
 def bounds(tier):
-    return {"max_blocks": 3 if tier == "quick" else 4, "values_per_direction": "none|count 2|count 3 (+computed count 4, +two sections of 1+2 cells)"}
+    return {"max_blocks": 3 if tier == "quick" else 4, "values_per_direction": "none|count 2|count 3 (+computed count 4, +two sections of 1+2 cells, +two equal sections of 2+2 cells)"}
 
 
 def script_of(case):
@@ -139,6 +143,9 @@ def script_of(case):
                 kw = dict(COMPUTED)
             if case.get("resize") == idx:
                 kw = dict(RESIZE)
+            if case.get("multi_eq") == idx:
+                chops.append([idx // 3, idx % 3, {"length_ratio": 0.5, "count": 2}])
+                kw = {"length_ratio": 0.5, "count": 2}
             if case.get("multi") == idx:
                 chops.append([idx // 3, idx % 3, {"length_ratio": 0.4, "count": 1}])
                 kw = {"length_ratio": 0.6, "count": 2}
@@ -236,7 +243,7 @@ def run_case(case):
     kind, payload = gradlab.write_and_observe(mesh)
     coords = {k: case[k] for k in ("cells", "numbering", "placement")}
     coords["complete"] = bool(case.get("complete"))
-    for k in ("computed", "multi", "resize"):
+    for k in ("computed", "multi", "multi_eq", "resize"):
         if k in case:
             coords[k] = case[k]
     coords["verdict"] = verdict
